@@ -662,7 +662,8 @@ def main():
     scs = [s for s in cat["scenarios"] if s["group"] in groups]
     if replay:
         w = json.load(open(replay)); w = w.get("witness", w)
-        names = set(w.get("scenarios", []))
+        # (the runs of decode1090 and of the Python binding are named <scenario>@<variant>)
+        names = {n.split("@")[0] for n in w.get("scenarios", [])}
         scs = [s for s in scs if s["name"] in names or s["name"].startswith("solo:") or s["name"] == "kinds:0:cli"]
     with ThreadPoolExecutor(max_workers=12) as ex:
         runs = list(ex.map(lambda a: run_scenario(exe, cat, a[1], scratch, a[0]), enumerate(scs)))
